@@ -1,6 +1,7 @@
 package functions
 
 import (
+	"fmt"
 	"sort"
 
 	"diagonal.works/b6"
@@ -9,8 +10,21 @@ import (
 	"github.com/golang/geo/s2"
 )
 
+// s2 can't cover its special empty and full polygons, which have no index.
+func expectCoverable(area b6.Area) error {
+	for i := 0; i < area.Len(); i++ {
+		if p := area.Polygon(i); p.IsEmpty() || p.IsFull() {
+			return fmt.Errorf("can't cover an empty or full polygon")
+		}
+	}
+	return nil
+}
+
 // Return a collection of points representing the centroids of s2 cells that cover the given area between the given levels.
 func s2Points(context *api.Context, area b6.Area, minLevel int, maxLevel int) (b6.Collection[string, b6.Geometry], error) {
+	if err := expectCoverable(area); err != nil {
+		return b6.Collection[string, b6.Geometry]{}, err
+	}
 	coverer := s2.RegionCoverer{MinLevel: minLevel, MaxLevel: maxLevel}
 	cells := make(map[s2.CellID]struct{})
 	for i := 0; i < area.Len(); i++ {
@@ -29,6 +43,9 @@ func s2Points(context *api.Context, area b6.Area, minLevel int, maxLevel int) (b
 
 // Return a collection of points representing the centroids of s2 cells that cover the given area at the given level.
 func s2Grid(context *api.Context, area b6.Area, level int) (b6.Collection[int, string], error) {
+	if err := expectCoverable(area); err != nil {
+		return b6.Collection[int, string]{}, err
+	}
 	coverer := s2.RegionCoverer{MinLevel: level, MaxLevel: level}
 	cells := make(map[s2.CellID]struct{})
 	for i := 0; i < area.Len(); i++ {
@@ -46,6 +63,9 @@ func s2Grid(context *api.Context, area b6.Area, level int) (b6.Collection[int, s
 
 // Return a collection of of s2 cells tokens that cover the given area at the given level.
 func s2Covering(context *api.Context, area b6.Area, minLevel int, maxLevel int) (b6.Collection[int, string], error) {
+	if err := expectCoverable(area); err != nil {
+		return b6.Collection[int, string]{}, err
+	}
 	coverer := s2.RegionCoverer{MinLevel: minLevel, MaxLevel: maxLevel}
 	cells := make(s2.CellUnion, 0, 4)
 	for i := 0; i < area.Len(); i++ {
